@@ -2,6 +2,7 @@ package main
 
 import (
 	"fmt"
+	"go/constant"
 	"go/token"
 	"go/types"
 	"sort"
@@ -28,9 +29,11 @@ func (t *Trans) execCall(fr *Frame, c *ssa.CallCommon, v ssa.Value, pos token.Po
 		return t.callStatic(fr, callee, c.Args, args, nil, pos)
 	case *ssa.MakeClosure:
 		ci := fr.closures[callee]
+		t.pendingFinals = ci.finals
 		return t.callStatic(fr, ci.fn, c.Args, args, ci.bindings, pos)
 	}
 	if ci, ok := fr.closures[c.Value]; ok {
+		t.pendingFinals = ci.finals
 		return t.callStatic(fr, ci.fn, c.Args, args, ci.bindings, pos)
 	}
 	return t.callDynamic(fr, c, args, pos)
@@ -74,6 +77,9 @@ func (t *Trans) canInline(f *ssa.Function, c *Contract) bool {
 	if c != nil && c.Inline {
 		return true
 	}
+	if f.Synthetic != "" && strings.HasPrefix(f.Synthetic, "wrapper") || strings.HasPrefix(f.Synthetic, "bound") || strings.HasPrefix(f.Synthetic, "thunk") {
+		return !hasLoops(f)
+	}
 	if !t.P.isClover(f) {
 		return false
 	}
@@ -95,6 +101,11 @@ func shortFn(f *ssa.Function) string {
 }
 
 func (t *Trans) callStatic(fr *Frame, f *ssa.Function, argVals []ssa.Value, args []string, freeVars []string, pos token.Pos) []string {
+	if f.String() == "fmt.Sprintf" && len(argVals) == 2 {
+		if term, ok := t.sprintfTerm(fr, argVals); ok {
+			return []string{term}
+		}
+	}
 	c := t.P.ContractFor(f)
 	if c != nil && !c.Inline {
 		names := make([]string, len(f.Params))
@@ -110,6 +121,7 @@ func (t *Trans) callStatic(fr *Frame, f *ssa.Function, argVals []ssa.Value, args
 		if f.Blocks != nil && !c.Trusted && t.P.isClover(f) {
 			w = t.P.funcWrites(t.env, f)
 		}
+		t.checkCallbackArgs(fr, c.Key, shortFn(f), names, ptypes, argVals, pos)
 		return t.applyContract(fr, c, shortFn(f), f.Signature, names, ptypes, args, w, pos)
 	}
 	if t.canInline(f, c) {
@@ -147,12 +159,19 @@ func sigNames(sig *types.Signature, c *Contract) ([]string, []types.Type) {
 func (t *Trans) inlineCall(fr *Frame, f *ssa.Function, c *Contract, argVals []ssa.Value, args []string, freeVars []string, pos token.Pos) []string {
 	sub := t.newFrame(f, args, fr.path+"/"+shortFn(f))
 	sub.freeVars = freeVars
+	if t.pendingFinals != nil {
+		sub.fvFinal = t.pendingFinals
+		t.pendingFinals = nil
+	}
 	sub.tags = fr.tags
 	sub.ghosts = fr.ghosts
 	if c != nil && c.Inline {
 		sub.contract = c
 	}
 	for i, av := range argVals {
+		if av == nil {
+			continue
+		}
 		if ci, ok := fr.closures[av]; ok && i < len(f.Params) {
 			sub.closures[f.Params[i]] = ci
 		}
@@ -337,27 +356,52 @@ func (t *Trans) applyContract(fr *Frame, c *Contract, cname string, sig *types.S
 	}
 	pre := fr.st
 	sc := &SpecCtx{t: t, fr: nil, st: pre, old: pre, names: map[string]specVal{}, callerFr: fr}
+	if t.reqOld != nil {
+		sc.old = *t.reqOld
+	}
 	for i, n := range names {
 		if i < len(args) {
 			sc.names[n] = specVal{args[i], ptypes[i]}
 		}
 	}
+	var freshGhosts []string
 	for _, g := range c.Ghosts {
 		if v, ok := fr.ghosts[g.Name]; ok {
 			sc.names[g.Name] = specVal{v, nil}
 		} else {
-			sc.names[g.Name] = specVal{t.freshConst(g.Sort.String(), "ghost_"+g.Name), nil}
+			k := t.freshConst(g.Sort.String(), "ghost_"+g.Name)
+			freshGhosts = append(freshGhosts, k)
+			sc.names[g.Name] = specVal{k, nil}
 		}
 	}
+	mentionsFreshGhost := func(term string) bool {
+		for _, k := range freshGhosts {
+			if strings.Contains(term, k) {
+				return true
+			}
+		}
+		return false
+	}
+	var ghostHyps []string
 	site := fmt.Sprintf("%s#pre.%s", fr.path, cname)
 	tags := append([]string{"C20"}, fr.tags...)
-	for i, ar := range t.autoRequires(c, names, ptypes, args) {
+	autoReq := t.autoRequires(c, names, ptypes, args)
+	if c.PkgPath == "" || c.Iface {
+		autoReq = nil // library functions and interface methods: only their stated preconditions
+	}
+	for i, ar := range autoReq {
 		if strings.Contains(ar, "null") || strings.Contains(ar, "vnil") || strings.Contains(ar, "fnil") {
 			t.oblige("pre", fmt.Sprintf("%s.nonnil%d", site, i), tags, fr.curReach, ar, pos, "default precondition of "+cname+": argument non-nil")
 		}
 	}
 	for _, r := range c.Requires {
 		g := sc.expandBool(r.Expr)
+		if mentionsFreshGhost(g) {
+			// the callee is proved for every value of its ghost parameter that satisfies this clause;
+			// with an arbitrary ghost value the clause becomes a hypothesis of the postconditions
+			ghostHyps = append(ghostHyps, g)
+			continue
+		}
 		t.oblige("pre", fmt.Sprintf("%s.%s", site, labelOr(r.Label, "req")), tags, fr.curReach, g, pos, "precondition of "+cname)
 	}
 	// havoc
@@ -374,6 +418,14 @@ func (t *Trans) applyContract(fr *Frame, c *Contract, cname string, sig *types.S
 			t.havocAll(fr)
 			continue
 		}
+		if name == "docheap*" {
+			for _, cn := range docHeapComps(t.env) {
+				w[cn] = t.env.comps[cn]
+			}
+			w["alloc"] = "Int"
+			w["F_document_Document_fields"] = "(Array Ref Ref)"
+			continue
+		}
 		if name == "ghost*" || name == "heap*" {
 			if name == "heap*" {
 				w["*"] = ""
@@ -385,6 +437,8 @@ func (t *Trans) applyContract(fr *Frame, c *Contract, cname string, sig *types.S
 		if srt, ok := t.P.ghostComps[name]; ok {
 			w[name] = srt
 		} else if srt, ok := t.env.comps[name]; ok {
+			w[name] = srt
+		} else if srt, ok := t.P.stateFunSorts[name]; ok {
 			w[name] = srt
 		} else if name == "@" {
 			for k, v := range t.P.declaredWrites(t.env, &Contract{Modifies: []*Sx{it}, Extra: map[string][]*Sx{}}) {
@@ -414,7 +468,11 @@ func (t *Trans) applyContract(fr *Frame, c *Contract, cname string, sig *types.S
 		post.results = append(post.results, specVal{r, sig.Results().At(i).Type()})
 	}
 	for _, e := range c.Ensures {
-		t.assume(fr.curReach, post.expandBool(e.Expr))
+		ens := post.expandBool(e.Expr)
+		if len(ghostHyps) > 0 && mentionsFreshGhost(ens) {
+			ens = fmt.Sprintf("(=> %s %s)", andTerms(ghostHyps...), ens)
+		}
+		t.assume(fr.curReach, ens)
 	}
 	return res
 }
@@ -484,7 +542,7 @@ func (t *Trans) execInvoke(fr *Frame, c *ssa.CallCommon, args []string, pos toke
 		fr.st = pre
 		fr.curReach = t.define("Bool", fr.id+"!dreach", andTerms(saveReach, g))
 		pv := t.define(t.env.SortOf(T), fr.id+"!recv", payload)
-		res := t.callStatic(fr, f, nil, append([]string{pv}, args...), nil, pos)
+		res := t.callStatic(fr, f, append([]ssa.Value{nil}, c.Args...), append([]string{pv}, args...), nil, pos)
 		alts = append(alts, alt{g, res, fr.st})
 	}
 	fr.curReach = saveReach
@@ -521,17 +579,31 @@ func ifaceName(t types.Type) string {
 func (t *Trans) callDynamic(fr *Frame, c *ssa.CallCommon, args []string, pos token.Pos) []string {
 	fv := fr.val(c.Value)
 	t.safe(fr, "nil-func-call", fmt.Sprintf("(not (= %s fnil))", fv), pos)
-	// callback clause of the enclosing top-level contract?
+	sig := c.Signature()
+	// a function parameter of the function under verification: its callback contract
 	if p, ok := c.Value.(*ssa.Parameter); ok && fr.contract != nil {
-		if cb := t.P.cs.ByKey[fr.contract.Key+"@"+p.Name()]; cb != nil {
-			sig := c.Signature()
+		if cb := t.P.cbParam(fr.contract.Key, p.Name()); cb != nil {
 			names, ptypes := sigNames(sig, cb)
-			return t.applyContract(fr, cb, "callback."+p.Name(), sig, names, ptypes, args, nil, pos)
+			old := fr.entrySt
+			t.reqOld = &old
+			res := t.applyContract(fr, cb, "callback."+p.Name(), sig, names, ptypes, args, nil, pos)
+			t.reqOld = nil
+			return res
+		}
+	}
+	// a function stored in a struct field with a field callback contract
+	if u, ok := c.Value.(*ssa.UnOp); ok && u.Op == token.MUL {
+		if fa, ok := u.X.(*ssa.FieldAddr); ok {
+			st := fa.X.Type().Underlying().(*types.Pointer).Elem()
+			if cb := t.P.cbField(st, fa.Field); cb != nil {
+				names, ptypes := sigNames(sig, cb)
+				return t.applyContract(fr, cb, "callback."+st.Underlying().(*types.Struct).Field(fa.Field).Name(), sig, names, ptypes, args, nil, pos)
+			}
 		}
 	}
 	t.note("%s: call through function value %s of unknown identity: all state havocked", fr.path, c.Value.Name())
 	t.havocAll(fr)
-	return t.freshResults(fr, c.Signature(), "dyn")
+	return t.freshResults(fr, sig, "dyn")
 }
 
 // ---------------------------------------------------------------------------------
@@ -621,4 +693,94 @@ func (t *Trans) execBuiltin(fr *Frame, b *ssa.Builtin, c *ssa.CallCommon, args [
 	}
 	t.note("%s: builtin %s abstracted", fr.path, b.Name())
 	return t.freshResults(fr, c.Signature(), b.Name())
+}
+
+// sprintfTerm translates fmt.Sprintf with a constant format made of literals, %s and %d into the
+// corresponding concatenation (assumed contract of Sprintf for that fragment, DESIGN.md section 3.1).
+func (t *Trans) sprintfTerm(fr *Frame, argVals []ssa.Value) (string, bool) {
+	fc, ok := argVals[0].(*ssa.Const)
+	if !ok || fc.Value == nil {
+		return "", false
+	}
+	format := constant.StringVal(fc.Value)
+	// recover the variadic arguments: slice of a local array filled by stores
+	var elems []ssa.Value
+	if sl, ok := argVals[1].(*ssa.Slice); ok {
+		if al, ok := sl.X.(*ssa.Alloc); ok {
+			arr := al.Type().(*types.Pointer).Elem().Underlying().(*types.Array)
+			elems = make([]ssa.Value, arr.Len())
+			for _, r := range *al.Referrers() {
+				ia, ok := r.(*ssa.IndexAddr)
+				if !ok {
+					continue
+				}
+				ic, ok := ia.Index.(*ssa.Const)
+				if !ok {
+					return "", false
+				}
+				for _, r2 := range *ia.Referrers() {
+					if st, ok := r2.(*ssa.Store); ok && st.Addr == ia {
+						elems[ic.Int64()] = st.Val
+					}
+				}
+			}
+		}
+	} else if c, ok := argVals[1].(*ssa.Const); !ok || c.Value != nil {
+		return "", false
+	}
+	t.uses["strings"] = true
+	var parts []string
+	lit := ""
+	flush := func() {
+		if lit != "" {
+			parts = append(parts, t.env.Lit(lit))
+			lit = ""
+		}
+	}
+	ai := 0
+	for i := 0; i < len(format); i++ {
+		if format[i] != '%' {
+			lit += string(format[i])
+			continue
+		}
+		if i+1 >= len(format) {
+			return "", false
+		}
+		i++
+		switch format[i] {
+		case '%':
+			lit += "%"
+		case 's', 'd':
+			if ai >= len(elems) || elems[ai] == nil {
+				return "", false
+			}
+			mi, ok := elems[ai].(*ssa.MakeInterface)
+			if !ok {
+				return "", false
+			}
+			ai++
+			flush()
+			switch t.env.SortOf(mi.X.Type()) {
+			case "Str":
+				parts = append(parts, fr.val(mi.X))
+			case "Bytes":
+				parts = append(parts, fmt.Sprintf("(bytesStr %s)", fr.val(mi.X)))
+			case sortBV64:
+				parts = append(parts, fmt.Sprintf("(itoa %s)", fr.val(mi.X)))
+			default:
+				return "", false
+			}
+		default:
+			return "", false
+		}
+	}
+	flush()
+	if len(parts) == 0 {
+		return "sempty", true
+	}
+	term := parts[0]
+	for _, p := range parts[1:] {
+		term = fmt.Sprintf("(scat %s %s)", term, p)
+	}
+	return t.define("Str", "sprintf", term), true
 }
